@@ -570,6 +570,10 @@ def make_abort_exc(kind: str) -> BaseException:
         return MemoryError("injected allocation failure")
     if kind == "KeyboardInterrupt":
         return KeyboardInterrupt()
+    if kind in ("OSError", "RuntimeError", "KeyError", "ValueError", "TypeError"):
+        import builtins
+
+        return getattr(builtins, kind)("injected fault")
     raise HarnessError(f"unknown abort kind {kind}")
 
 
